@@ -161,6 +161,36 @@ def replay(case):
     return v
 
 
+def agreement_case(case):
+    """both ends of one negotiation with the real code: the request a real AssociationRequester builds is decoded from its
+    wire form and answered by a real AssociationAcceptor; its A-ASSOCIATE-AC, again through the wire form, is processed by the
+    requester.  Both must end up with the same table of usable contexts (id, abstract syntax, transfer syntax), and it must
+    be the one the Lean model `agreed` computes."""
+    from pynetdicom2 import pdu
+    ae, _ = build_ae([('scu', case['classes'])])
+    ae.supported_ts = frozenset(case['req_ts']) if isinstance(ae.supported_ts, (set, frozenset)) else list(case['req_ts'])
+    req = msgs.real_requester(ae, {'aet': 'REMOTEAET', 'address': 'host', 'port': 104})
+    acc_ae = types.SimpleNamespace(supported_scp={a: (lambda *x: None) for a in case['served']}, supported_ts=frozenset(case['acc_ts']),
+                                   timeout=1, store_in_file=set(), get_file=None)
+    acc = msgs.real_acceptor(acc_ae)
+    state = {}
+
+    def receive(timeout):
+        # the request is on the wire now: let the acceptor answer it
+        rq = pdu.AAssociateRqPDU.decode(req.dul.sent[-1].encode())
+        state['proposed'] = [(i.context_id, str(i.abs_sub_item.name), [str(t.name) for t in i.ts_sub_items])
+                             for i in rq.variable_items if isinstance(i, pdu.PresentationContextItemRQ)]
+        acc.accept(rq)
+        return pdu.AAssociateAcPDU.decode(acc.dul.sent[-1].encode())
+    req.dul.receive = receive
+    req._request(ae.local_ae, req.remote_ae, users_pdu=None)
+    mine = sorted((k, str(v.sop_class), str(v.supported_ts)) for k, v in req.accepted_contexts.items())
+    theirs = sorted((k, str(v.sop_class), str(v.supported_ts)) for k, v in acc.accepted_contexts.items())
+    if mine != theirs:
+        return 'requester holds %r, acceptor serves %r' % (mine, theirs), None
+    return None, (state['proposed'], mine)
+
+
 def run(chk):
     tier = chk.tier
     rnd = common.rng('c11')
@@ -170,7 +200,9 @@ def run(chk):
                 'length, one context per configured class under ids 1,3,5,.. with the configured transfer syntaxes); the reply '
                 'is every accept/reject pattern over result codes 0..4 for proposals of up to 4 contexts and seeded patterns '
                 'for large ones; usable contexts and get_scu for every class are judged and diffed with the Lean model; '
-                'several requesters are created per process (state shared between associations would show); non-trivial = '
+                'several requesters are created per process (state shared between associations would show); both ends: a real '
+                'requester against a real acceptor through the wire forms of RQ and AC, their tables of usable contexts compared with '
+                'each other and with the Lean model; non-trivial = '
                 'configurations with at least two classes')
     chk.trusted += ['harness/msgs.py real_requester: provider thread stubbed, everything else is the real constructor']
     cases = []
@@ -230,5 +262,35 @@ def run(chk):
         w0 = w.split(' | ')[0].strip()
         if w0 != g.strip():
             chk.broke('correspondence %s' % op.split()[0], 'model %s\nimpl  %s' % (w0[:300], g[:300]), case)
+            break
+    # both ends of a negotiation, real requester against real acceptor
+    uni = ['1.2.840.10008.1.1', '1.2.840.10008.5.1.4.1.1.2', '1.2.840.10008.5.1.4.1.1.7', '1.2.840.10008.5.1.4.1.2.1.1']
+    ag_cases = []
+    for n in (1, 2, 3, 4):
+        for served_mask in range(0, 2 ** n, 1 if tier != 'quick' or n < 4 else 3):
+            for req_ts in (TS[:1], TS[:2], [TS[2], TS[0]], TS):
+                for acc_ts in (TS[:1], TS[1:2], TS[1:], TS):
+                    ag_cases.append({'classes': uni[:n], 'served': [u for k, u in enumerate(uni[:n]) if served_mask >> k & 1],
+                                     'req_ts': req_ts, 'acc_ts': acc_ts})
+    ops2, keep2 = [], []
+    for ac in ag_cases:
+        try:
+            fail, obs = agreement_case(ac)
+        except Exception as e:  # pylint: disable=broad-except
+            common.raise_for(common.describe_exc(e))
+        chk.case('agree' + repr(ac), len(ac['classes']) > 1, {'both_ends': True, 'classes': len(ac['classes']), 'served': len(ac['served'])}
+                 if len(chk.samples) < 14 and len(ac['served']) == 2 else None)
+        chk.count('agreement')
+        if fail:
+            chk.violation('C11:agreement', 'negotiation between a real requester and a real acceptor: ' + fail, ac)
+            continue
+        proposed, table = obs
+        ops2.append('agree %s %s %s' % ('+'.join(h(u) for u in ac['served']) or '-', '+'.join(h(t) for t in ac['acc_ts']) or '-',
+                                        ' '.join('%d:%s:%s' % (i, h(a), '+'.join(h(t) for t in tss)) for i, a, tss in proposed)))
+        keep2.append((ac, table))
+    for (ac, table), line in zip(keep2, common.driver(ops2) if ops2 else []):
+        got = ';'.join('%d:%s:%s' % (i, h(a), h(t)) for i, a, t in table)
+        if line != got:
+            chk.broke('correspondence agreed (both ends)', 'model %s\nimpl  %s' % (line[:300], got[:300]), ac)
             break
     chk.lean(['Dicom.Props.C11'])
